@@ -5,6 +5,10 @@ from vf import worlds, waithook, miniloop
 from vf.tape import Fail, notrace
 
 PROPERTY = 'C06'
+
+
+class Boom(RuntimeError):
+    """raised by an application callback (fault injection)"""
 NSS = ['/', '/a']
 ES = ['e0', 'e1']
 BIG = 10 ** 20
@@ -40,14 +44,21 @@ def h_hist(t, part):
         w, live = build(asyncio_)
     model = {}        # sid -> {id: tag}
     fired = []
+    boom_at = t.int(-1, 1)       # which callback invocation raises (-1: none)
+
+    def invoked(tag, a):
+        k = len(fired)
+        fired.append((tag, a))
+        if boom_at == k:
+            raise Boom(tag)
 
     def mkcb(tag):
         if asyncio_ and tag in ('cb1', 'cb3', 'final'):
             async def cb(*a):
-                fired.append((tag, a))
+                invoked(tag, a)
         else:
             def cb(*a):
-                fired.append((tag, a))
+                invoked(tag, a)
         return cb
 
     def emit_cb(e, ns, tag, data):
@@ -106,7 +117,7 @@ def h_hist(t, part):
                     w.recv(e, b'x')     # the (unused) attachment completes the packet
             sid = live[(e, ns)]
             known = sid is not None and i in model.get(sid, {})
-            if len(w.eio.contained) != ncont:
+            if len(w.eio.contained) != ncont and not (known and isinstance(w.eio.contained[-1][1], Boom)):
                 return Fail('ack:exception:%s:id=%s' % (type(w.eio.contained[-1][1]).__name__,
                                                         'zero' if i == 0 else 'other'),
                             'ACK id=%r from %s%s raised %r (known=%r)' % (i, e, ns, w.eio.contained[-1][1], known))
@@ -280,11 +291,12 @@ META = dict(
                 'trigger_callback, call(), against a reference table of outstanding (sid, id) -> callback.',
     bounds={'quick': 'histories of 3 operations from {emit-with-callback, ACK/BINARY_ACK with symbolic id in 0..4 or '
                      '10^20 or 0 through the text codec, namespace DISCONNECT, re-CONNECT} over 2 transports x 2 '
-                     'namespaces; ACK arguments 0..2 symbolic ints; then one emit-with-callback to every live client; '
+                     'namespaces; ACK arguments 0..2 symbolic ints; at most one callback invocation raises (symbolic index); then '
+                     'one emit-with-callback to every live client; '
                      'call(): one call with up to 2 environment actions during the wait (ACK with 0..2 args, '
                      'DISCONNECT, foreign ACK, nothing); asyncio: all miniloop schedules of caller || peer',
             'thorough': 'same with histories of 4 operations'},
-    outside=['callbacks on multi-recipient emits (documented unsupported)', 'ids above 4 other than 10^20',
+    outside=['callbacks on multi-recipient emits (documented unsupported)', 'more than one raising callback', 'ids above 4 other than 10^20',
              'payload shapes (C02)'],
     stubs=['engine.io server -> vf.stubs.FakeEio/FakeAEio', 'JSON text -> TokJson', 'asyncio -> vf.miniloop',
            'Event.wait of call() -> vf.waithook (environment actions run re-entrantly while blocked)',
